@@ -303,7 +303,7 @@ def c08(ctx):
         lo = iv['lo']
         while lo <= iv['hi']:
             hi = min(iv['hi'], lo + 49999)
-            for cx in ('alone', 'hex', 'digits', 'xesc'):
+            for cx in ('alone', 'hex', 'digits', 'xesc', 'tail', 'head'):
                 jobs.append(({'lo': lo, 'hi': hi, 'c': iv['c']}, cx))
             lo = hi + 1
     recs = core.pool_map(dc.interval_records, jobs, chunksize=1)
@@ -353,6 +353,11 @@ def run_update_family(ctx, n_quick, n_thorough):
     # the bounded family; the historical switches must exhibit their defects
     ctx.mc('Update', 'MC_Update.cfg', timeout=3000)
     ctx.mc('Update', 'MC_Update_F14.cfg', expect_violation='C03_ExactCover', coverage=False)
+    # three levels, two rounds, renames: the chain of MANIFEST entries (Chain.tla)
+    ctx.mc('Chain', 'MC_Chain.cfg', timeout=3000)
+    if thorough or ctx.pid in ('C03', 'C12'):
+        ctx.mc('Chain', 'MC_Chain_F37.cfg', expect_violation='C03_ChainExact', coverage=False)
+        ctx.mc('Chain', 'MC_Chain_F50.cfg', expect_violation='C03_Loadable', coverage=False)
     if thorough:
         ctx.mc('Update', 'MC_Update_F14fix.cfg', timeout=3000)
         ctx.mc('Update', 'MC_Update_F9.cfg', expect_violation='C03_ExactCover_ModuloF14', coverage=False)
@@ -457,6 +462,7 @@ def c11(ctx):
     ctx.mc('MC_Incremental', 'MC_Incremental_F2.cfg', expect_violation='IncEqualsFull', coverage=False)
     # ... and the short-cut that ignored the entry's hash set (F27)
     ctx.mc('MC_Incremental', 'MC_Incremental_F27.cfg', expect_violation='IncEqualsFull', coverage=False)
+    ctx.mc('MC_Incremental', 'MC_Incremental_F52.cfg', expect_violation='IncEqualsFull', coverage=False)
     n = 12000 if thorough else 700
     out = core.pool_map(d.one_history, [(ctx.seed, i, {}) for i in range(n)])
     recs = [r for o in out for r in o]
@@ -559,6 +565,7 @@ def c14(ctx):
     rng = random.Random(ctx.seed)
     ctx.mc('Signing', 'MC_Signing.cfg')
     ctx.mc('Signing', 'MC_Signing_F11.cfg', expect_violation='SignedIffWanted', coverage=False)
+    ctx.mc('Signing', 'MC_Signing_F51.cfg', expect_violation='SignedOverEntries', coverage=False)
     if not gpgenv.have_gpg():
         ctx.skipped.append('gpg not available: real signing runs skipped')
         return ctx.finish(rule='model only')
